@@ -28,7 +28,7 @@ int main(int argc, char** argv) {
     vh::install_fault_handlers(60);
     long runs = argi("runs", 20), seed = argi("seed", 1);
     int full = (int)argi("full", 2);
-    std::vector<POp> P; { std::string g = A.count("prog") ? A["prog"] : "put:29,get:32,get:29"; std::size_t p = 0; while (p < g.size()) { std::size_t c = g.find(':', p), e = g.find(',', p); if (e == std::string::npos) e = g.size(); P.push_back({g.substr(p, c - p), atoi(g.c_str() + c + 1)}); p = e + 1; } }
+    std::vector<POp> P; { std::string g = A.count("prog") ? A["prog"] : "put:21,get:32,get:21"; std::size_t p = 0; while (p < g.size()) { std::size_t c = g.find(':', p), e = g.find(',', p); if (e == std::string::npos) e = g.size(); P.push_back({g.substr(p, c - p), atoi(g.c_str() + c + 1)}); p = e + 1; } }
     bool pct = A.count("sched") && A["sched"] == "pct";
     vs::install(); thread_info_table::init();
     vs::S.record = true; vs::S.yield_on_key_load = false;
@@ -41,7 +41,7 @@ int main(int argc, char** argv) {
         tree_instance ti; Token setup{}; enter(setup);
         for (int i = 1; i <= 16; i++) { int id = 100 + 2 * i; int buf[2] = {id, id}; std::string k(1, (char)(2 * i)); put<char>(setup, &ti, k, (char*)buf, false, 8); }
         // B1 = 2..16, B2 = 18..32 (8 entries each); fill one of them to 15 with the odd keys, prune the other to its first key
-        for (int i = 1; i <= 7; i++) { int k = (full == 1 ? 2 : 18) + 2 * i - 1; int id = 100 + k; int buf[2] = {id, id}; put<char>(setup, &ti, std::string(1, (char)k), (char*)buf, false, 8); }
+        for (int i = 1; i <= 7; i++) { int k = (full == 1 ? 2 : 18) + 2 * i - 1 + (i >= 2 ? 2 : 0); /* odd keys, one gap: 5 / 21 stays absent */ int id = 100 + k; int buf[2] = {id, id}; put<char>(setup, &ti, std::string(1, (char)k), (char*)buf, false, 8); }
         for (int i = 1; i <= 7; i++) { int k = (full == 1 ? 18 : 2) + 2 * i; remove(setup, &ti, std::string(1, (char)k)); }
         interior_node* PI = dynamic_cast<interior_node*>(ti.load_root_ptr()); if (!PI || PI->get_n_keys() != 1) { fprintf(stderr, "unexpected shape\n"); return 2; }
         base_node* Pn = PI; border_node* L = dynamic_cast<border_node*>(PI->get_child_at(0)); border_node* R = dynamic_cast<border_node*>(PI->get_child_at(1));
